@@ -259,6 +259,17 @@ func genMsg(r *simrt.RNG) msgSpec {
 			pl.Cases = append(pl.Cases, msgCase{N: c, Body: genParts(r, 1+r.Intn(4), false)})
 		}
 		pl.Dflt = genParts(r, 1+r.Intn(4), false)
+		if r.Intn(4) == 0 {
+			// a plural inside a case of the plural
+			inner := msgPart{T: "plural", S: []string{"$n", "$y", "length($xs)"}[r.Intn(3)]}
+			inner.Cases = []msgCase{{N: 1, Body: genParts(r, 1+r.Intn(3), false)}}
+			inner.Dflt = genParts(r, 1+r.Intn(3), false)
+			if len(pl.Cases) > 0 && r.Intn(2) == 0 {
+				pl.Cases[0].Body = append(pl.Cases[0].Body, inner)
+			} else {
+				pl.Dflt = append(pl.Dflt, inner)
+			}
+		}
 		m.Body = []msgPart{pl}
 		return m
 	}
